@@ -19,7 +19,7 @@ RULE = (
     "overlapping ranges and different maxima (one operand is exhausted strictly before the other, so the "
     "tail handling runs). fuzz_asan: an Atheris / libFuzzer campaign on the coverage-instrumented ASan build "
     "(bytes -> gap-encoded arrays, layouts, k-way lists; empty and seeded corpus; 4 000 executions per shard quick, "
-    "1.5 million thorough). Enumerated cases are pairwise distinct by construction."
+    "500 000 thorough). Enumerated cases are pairwise distinct by construction."
 )
 ASSUMPTIONS = [
     "the bounds-checked build differs from the shipped kernel only in the boundscheck directive",
@@ -53,7 +53,7 @@ def enum_many(tier, shard, nshards):
 def fuzz_runner(sub, tier, seed, shard, nshards, rec):
     fuzzrun.run_campaign(sub, tier, seed, shard, nshards, rec,
                          os.path.join(VERIF, "vfw", "fuzz", "kernels_fuzz.py"),
-                         {"quick": 4000, "thorough": 1500000}, asan=True, seed_corpus=kernel_seeds,
+                         {"quick": 4000, "thorough": 500000}, asan=True, seed_corpus=kernel_seeds,
                          asan_abort_is_violation=True, mode="c09")
 
 
